@@ -1905,7 +1905,8 @@ def check_hamming_replacement(r, rule):
     s = nn.summary(q)
     r.rep.analysed(q)
     spec = r.A.summarize_source("def _hamming_replacement(seq_a, seq_b):\n    if len(seq_a) != len(seq_b):\n        return np.inf\n    return hamming(seq_a, seq_b)\n", "_hamming_replacement", "pyrepseq.nn")
-    code = subst(s.ret, canon_params(s))
+    from ..rules import added_param_defaults
+    code = subst(subst(s.ret, added_param_defaults(s, spec)), canon_params(s))
     sp = subst(spec.ret, canon_params(spec))
     check_equiv(r.rep, rule, q, "unequal lengths give an infinite distance, equal lengths the rapidfuzz Hamming distance of the two arguments", code, sp, wh(r, q, s.func.node),
                 eq=Equiv(rewrites=std_rewrites(), modelled={"rapidfuzz.distance.Hamming.distance", "builtins.float"}), key="hamming replacement")
